@@ -7,6 +7,7 @@ import (
 	"os/exec"
 	"path/filepath"
 	"regexp"
+	"runtime"
 	"sort"
 	"strings"
 	"sync"
@@ -595,9 +596,25 @@ type c28sst struct{ N, S int }
 
 func c28LinSem(c *ev.Ctx, r *rand.Rand, caseN int) {
 	capN, capS := 3+r.Intn(3), 20+r.Intn(30)
-	sem := datasemaphore.New(dag.Metric{Num: idx.Event(capN), Size: uint64(capS)}, nil)
-	rec := &hist.Recorder{}
 	clients := 3 + r.Intn(2)
+	// every second history: the semaphore reports over-releases through its warning callback. What it reports as held
+	// is part of the release's observable outcome; the callback yields, so other clients get a chance to run "inside" it.
+	// Each client releases sizes of its own residue class, which tells whose release a report belongs to.
+	withWarning := caseN/6%2 == 1 // (caseN%6 is fixed for this structure)
+	reported := make([]*c28sst, clients)
+	var warn func(received dag.Metric, processing dag.Metric, releasing dag.Metric)
+	if withWarning {
+		warn = func(_ dag.Metric, processing dag.Metric, releasing dag.Metric) {
+			cl := int(releasing.Size) % clients
+			reported[cl] = &c28sst{int(processing.Num), int(processing.Size)}
+			runtime.Gosched()
+			if caseN/6%4 == 3 {
+				time.Sleep(200 * time.Microsecond) // long enough for the other clients to get several operations in
+			}
+		}
+	}
+	sem := datasemaphore.New(dag.Metric{Num: idx.Event(capN), Size: uint64(capS)}, warn)
+	rec := &hist.Recorder{}
 	seeds := make([]int64, clients)
 	for i := range seeds {
 		seeds[i] = r.Int63()
@@ -606,6 +623,9 @@ func c28LinSem(c *ev.Ctx, r *rand.Rand, caseN int) {
 		rr := rand.New(rand.NewSource(seeds[cl]))
 		for k := 0; k < 5+rr.Intn(5); k++ {
 			n, s := rr.Intn(3), rr.Intn(20)
+			if withWarning {
+				s = s/clients*clients + cl // this client's residue class
+			}
 			m := dag.Metric{Num: idx.Event(n), Size: uint64(s)}
 			hist.Jitter(rr.Intn(1000))
 			switch rr.Intn(7) {
@@ -617,7 +637,14 @@ func c28LinSem(c *ev.Ctx, r *rand.Rand, caseN int) {
 					return c28sst{0, 0}
 				})
 			case 3, 4:
-				rec.Do(cl, c28in{Op: "release", K: n, V: s}, func() interface{} { sem.Release(m); return c28sst{} })
+				rec.Do(cl, c28in{Op: "release", K: n, V: s}, func() interface{} {
+					reported[cl] = nil
+					sem.Release(m)
+					if rp := reported[cl]; rp != nil {
+						return c28sst{rp.N + 1000, rp.S} // an over-release was reported, with this held amount
+					}
+					return c28sst{}
+				})
 			case 5:
 				rec.Do(cl, c28in{Op: "processing"}, func() interface{} {
 					p := sem.Processing()
@@ -644,7 +671,13 @@ func c28LinSem(c *ev.Ctx, r *rand.Rand, caseN int) {
 				return o.N == 0, s
 			case "release":
 				if s.N < i.K || s.S < i.V {
+					if withWarning && (o.N != s.N+1000 || o.S != s.S) {
+						return false, s // the report must show what was held at the moment of the reset
+					}
 					return true, c28sst{}
+				}
+				if withWarning && o.N >= 1000 {
+					return false, s // reported an over-release that was none
 				}
 				return true, c28sst{s.N - i.K, s.S - i.V}
 			case "processing":
@@ -653,6 +686,9 @@ func c28LinSem(c *ev.Ctx, r *rand.Rand, caseN int) {
 				return o.N == capN-s.N && o.S == capS-s.S, s
 			}
 		},
+	}
+	if withWarning {
+		c.Count("semaphore_histories_with_warning_callback", 1)
 	}
 	c28check(c, "semaphore", model, rec.Ops(), caseN)
 }
